@@ -215,11 +215,17 @@ func c17GenGraph(r *rng) (src string, ids []int, named map[string][]int) {
 	// kinds are fixed first so that typed references (file:, scope:) point at nodes of the right kind
 	kinds := make([]int, len(ids))
 	for k := range kinds {
-		kinds[k] = r.intn(6)
+		kinds[k] = r.intn(9)
 	}
 	kinds[0] = 3 // at least one DIFile
-	var files, scopes []int
+	var files, scopes, exprs, gvars []int
 	for k, id := range ids {
+		if kinds[k] == 6 {
+			exprs = append(exprs, id)
+		}
+		if kinds[k] == 7 {
+			gvars = append(gvars, id)
+		}
 		if kinds[k] == 3 {
 			files = append(files, id)
 			scopes = append(scopes, id)
@@ -258,7 +264,21 @@ func c17GenGraph(r *rng) (src string, ids []int, named map[string][]int) {
 		case 3:
 			fmt.Fprintf(&b, "!%d = %s!DIFile(filename: \"a.c\", directory: \"/\")\n", id, dist)
 		case 4:
-			fmt.Fprintf(&b, "!%d = %s!DILexicalBlock(scope: !%d, file: !%d, line: %d)\n", id, dist, scopes[r.intn(len(scopes))], files[r.intn(len(files))], id)
+			fmt.Fprintf(&b, "!%d = %s!DILexicalBlock(scope: !%d, file: !%d, line: %d)\n", id, dist, scopes[r.intn(len(scopes))], files[r.intn(len(files))], id+1)
+		case 6:
+			// a numbered expression: references to it are written !N, not as a copy in place
+			fmt.Fprintf(&b, "!%d = %s!DIExpression(DW_OP_plus_uconst, %d)\n", id, dist, id)
+		case 7:
+			fmt.Fprintf(&b, "!%d = %s!DIGlobalVariable(name: \"v%d\", file: !%d, line: %d)\n", id, dist, id, files[r.intn(len(files))], id+1)
+		case 8:
+			v, e := "null", "!DIExpression()"
+			if len(gvars) > 0 {
+				v = fmt.Sprintf("!%d", gvars[r.intn(len(gvars))])
+			}
+			if len(exprs) > 0 && r.chance(70) {
+				e = fmt.Sprintf("!%d", exprs[r.intn(len(exprs))])
+			}
+			fmt.Fprintf(&b, "!%d = %s!DIGlobalVariableExpression(var: %s, expr: %s)\n", id, dist, v, e)
 		default:
 			fmt.Fprintf(&b, "!%d = %s!DISubrange(count: %d)\n", id, dist, id)
 		}
@@ -356,6 +376,15 @@ func runC17(c *config) {
 		for _, id := range ids {
 			if bad == "" && !strings.Contains(text, fmt.Sprintf("\n!%d = ", id)) && !strings.HasPrefix(text, fmt.Sprintf("!%d = ", id)) {
 				bad = fmt.Sprintf("explicit ID !%d not kept", id)
+			}
+		}
+		// the specialised nodes are written in the printer's own spelling: each definition is printed as it was
+		// written, references by ID included (a reference !N must not come back as a copy in place)
+		for _, line := range strings.Split(src, "\n") {
+			if bad == "" && strings.HasPrefix(line, "!") && strings.Contains(line, " = ") && strings.Contains(line, "!DI") && !strings.Contains(line, "!{") {
+				if !strings.Contains("\n"+text, "\n"+line+"\n") {
+					bad = "a specialised node is not printed as it was written: " + line
+				}
 			}
 		}
 		if bad != "" {
